@@ -307,7 +307,7 @@ def worker(ctx):
         try:
             src = os.path.join(top, "src")
             os.makedirs(src)
-            paths = write_schema(root, src, rng=rng, semi=0.3, comments=0.3, path_style="random")
+            paths = write_schema(root, src, rng=rng, semi=0.3, comments=0.3, path_style="random", compact=0.15)
             wit["schema"] = pycommon.describe(root, paths)
             trad = not is_extensible_anywhere(root)
             files = root.all_files()
